@@ -466,9 +466,12 @@ class Adapter(object):
     self.obj2 = None
     self.own = None
     self.msg = None
+    self.modified = False
 
   def step(self, a, args):
     c = self.codec
+    if a == "Modify":
+      self.modified = True
     if a == "Choose":
       self.kind = args["msg"]["k"]
       self.tag = args["tag"]
@@ -533,8 +536,9 @@ class Adapter(object):
     return obs
 
   def signature(self, st, obs):
-    fam = (self.tag or "?/?").split("/")
-    sig = {"action": st["a"], "kind": self.kind, "family": fam[1] if len(fam) > 1 else ""}
+    """classifies a mismatch: which action on which kind of object failed how, and whether the object
+    had been changed after its first encoding (stale-state defects)"""
+    sig = {"action": st["a"], "kind": self.kind, "modified": self.modified}
     exp = st["exp"]
     if isinstance(obs, dict) and "EXC" in obs:
       sig["observed"] = "exception:" + obs["EXC"]
@@ -542,12 +546,7 @@ class Adapter(object):
     if st["a"] in ("Encode", "Reencode"):
       if obs.get("wire") != exp.get("wire"):
         ow, ew = obs.get("wire"), exp.get("wire")
-        if isinstance(ow, list) and len(ow) != len(ew):
-          sig["observed"] = "wire-length"
-        else:
-          sig["observed"] = "wire-bytes"
-          if isinstance(ow, list):
-            sig["first_byte"] = next(i for i in range(len(ew)) if ow[i] != ew[i])
+        sig["observed"] = "wire-length" if isinstance(ow, list) and len(ow) != len(ew) else "wire-bytes"
       else:
         sig["observed"] = "len()"
     elif st["a"] == "Decode":
